@@ -123,17 +123,34 @@ def line_start_rewrite(pattern, repl, flags):
     return {'every_line': tree[0][1] == 'AT_BEGINNING_LINE', 'cases': cases}
 
 
-def line_map(node):
-    """A term that is `'\\n'.join(f(line) for line in S.split('\\n'))` with f one of
+def line_map(node, calls=()):
+    """A term that is `SEP.join(f(line) for line in <lines of S>)` with f one of
          PFX + line if line.startswith(LIT) else line     (insert PFX in front of every line that starts with LIT)
          line[len(LIT):] if line.startswith(LIT) else line / line.removeprefix(LIT)     (remove LIT from the start of every line)
-    -> ('lines', {'every_line': True, 'cases': [(consumed, lookahead, result)]}, subject node); else None."""
+    -> ('lines', {'every_line': True, 'relation': .., 'cases': [(consumed, lookahead, result)]}, subject node); else None.
+    relation says what a "line start" is: 'LF' for S.split('\n') re-joined with '\n' (the start of the text and what follows a LF - the
+    relation of ^ under re.MULTILINE); 'splitlines' for str.splitlines, which also breaks at a lone CR, VT, FF, FS, GS, RS, NEL, LS, PS.
+    `calls`: the call events of the path (a conditional slice loses its test in the interpreter's value; the literal of the
+    startswith(..) call that decides it is read from there)."""
     ps = T.pieces(node)
-    if not (len(ps) == 1 and ps[0][0] == 'J' and ps[0][1] == '\n' and isinstance(ps[0][2], ast.Name) and len(ps[0][4]) == 1 and ps[0][4][0][0] == 'V'):
+    if not (len(ps) == 1 and ps[0][0] == 'J' and isinstance(ps[0][2], ast.Name) and len(ps[0][4]) == 1 and ps[0][4][0][0] == 'V'):
         return None
-    _, _, var, coll, inner = ps[0]
-    cm = T.match(coll, "_S.split('\\n')")
+    _, sep, var, coll, inner = ps[0]
+    relation = None
+    cm = T.match(coll, "_S.split(_D)")
+    if cm is not None and isinstance(cm['_D'], ast.Constant) and isinstance(cm['_D'].value, str):
+        relation = 'LF' if (cm['_D'].value == '\n' and sep == '\n') else 'split(%r) / %r.join' % (cm['_D'].value, sep)
+    else:
+        cm = None
     if cm is None:
+        cm = T.match_any(coll, ['_S.splitlines(True)', '_S.splitlines(keepends=True)'])
+        if cm is not None and sep == '':
+            relation = 'splitlines'
+    if cm is None:
+        cm = T.match_any(coll, ['_S.splitlines()', '_S.splitlines(False)'])
+        if cm is not None and sep in ('\n', '\r\n'):
+            relation = 'splitlines'
+    if cm is None or relation is None:
         return None
     elt = inner[0][1]
     v = T.show(var)
@@ -154,7 +171,21 @@ def line_map(node):
         return None
     rm = T.match(elt, '_V.removeprefix(_L)')
     if rm and T.show(rm['_V']) == v and isinstance(rm['_L'], ast.Constant) and isinstance(rm['_L'].value, str):
-        return ('lines', {'every_line': True, 'cases': [(rm['_L'].value, '', '')]}, cm['_S'])
+        return ('lines', {'every_line': True, 'relation': relation, 'cases': [(rm['_L'].value, '', '')]}, cm['_S'])
+    am = T.match_any(elt, ['ALT(SLICE(_V, _N, None) | _V)', 'ALT(_V | SLICE(_V, _N, None))'])
+    if am is not None and T.show(am['_V']) == v and isinstance(am['_N'], ast.Constant):
+        lits = set()
+        for c in calls:
+            if c[0].split('.')[-1] == 'startswith' and len(c[1]) == 1:
+                try:
+                    lits.add(ast.literal_eval(c[1][0]))
+                except Exception:
+                    lits.add(None)
+        if len(lits) == 1 and isinstance(list(lits)[0], str) and type(am['_N'].value) is int and am['_N'].value >= 0:
+            lit, n = list(lits)[0], am['_N'].value
+            consumed = lit[:n] if n <= len(lit) else lit + '<%d more characters>' % (n - len(lit))
+            return ('lines', {'every_line': True, 'relation': relation, 'cases': [(consumed, lit[n:], '')]}, cm['_S'])
+        return ('lines', {'every_line': True, 'relation': relation, 'cases': None}, cm['_S'])
     if not isinstance(elt, ast.IfExp):
         return None
     st = starts(elt.test)
@@ -166,10 +197,10 @@ def line_map(node):
         return None
     hp = T.pieces(hit)
     if len(hp) == 2 and hp[0][0] == 'L' and hp[1][0] == 'V' and T.show(hp[1][1]) == v:
-        return ('lines', {'every_line': True, 'cases': [('', lit, hp[0][1])]}, cm['_S'])
+        return ('lines', {'every_line': True, 'relation': relation, 'cases': [('', lit, hp[0][1])]}, cm['_S'])
     sm = T.match(hit, 'SLICE(_V, _N, None)')
     if sm and T.show(sm['_V']) == v and isinstance(sm['_N'], ast.Constant) and sm['_N'].value == len(lit):
-        return ('lines', {'every_line': True, 'cases': [(lit, '', '')]}, cm['_S'])
+        return ('lines', {'every_line': True, 'relation': relation, 'cases': [(lit, '', '')]}, cm['_S'])
     return None
 
 
@@ -227,7 +258,7 @@ def _returned_substitution(prog, fn):
     for s in Interp(prog, Scenario(inline=noinline)).run(fn):
         if s.raised is not None:
             continue
-        sub = substitution(render(s.ret)) or line_map(render(s.ret))
+        sub = substitution(render(s.ret)) or line_map(render(s.ret), s.calls)
         if sub is None:
             raise AnalysisError('%s: unrecognised implementation shape: %s' % (fn.qualname, render(s.ret)[:120]))
         subs.append(sub[:-1] + (T.show(sub[-1]) == ps[0], T.show(sub[-1])))
@@ -253,6 +284,16 @@ def dash_pair(rep, prog, M):
                       'escaping by replacing %r cannot match at the very start of the text: a first line beginning with "-" is not escaped' % e[1],
                       where=esc.where, expected="re.sub(r'^-', '- -', text, flags=re.MULTILINE)", found='text.replace(%r, %r)' % (e[1], e[2]))
         return
+    for fn, sub in ((esc, e), (une, u)):
+        if sub[0] == 'lines':
+            rep.check(sub[1]['relation'] == 'LF', 'C11.1', 'PGPMessage.%s' % fn.name, 'line starts by %s' % sub[1]['relation'],
+                      'both sides must mean the same thing by "start of a line": the start of the text and what follows a LF (^ under re.MULTILINE, '
+                      "split('\\n')); str.splitlines also breaks at a lone CR, VT, FF, FS, GS, RS, NEL, LS and PS, where the other side never escaped / unescaped",
+                      where=fn.where, expected="text.split('\\n') ... '\\n'.join", found='str.splitlines')
+            if sub[1]['cases'] is None:
+                if sub[1]['relation'] == 'LF':
+                    raise AnalysisError('%s: per-line rewrite whose condition the checker cannot read' % fn.qualname)
+                return
     if e[0] == 'lines':
         rw, shown_e = e[1], 'per-line map %s' % (e[1]['cases'],)
     else:
@@ -675,28 +716,36 @@ def text_signature_type(rep, prog):
                       where=sg.where, expected=want, found=types, scenario=t)
 
 
+def cleartext_documents():
+    """(description, line ending, text, document): well-formed cleartext-signed documents with LF and with CR LF line endings."""
+    out = []
+    for eol, name in (('\n', 'LF'), ('\r\n', 'CR LF')):
+        for what, lines in (('one line', ['a']), ('two lines', ['hello', 'world']), ('empty line inside and trailing blanks', ['x', '', 'y  \t']),
+                            ('escaped dash line last', ['text', '- -----dashes'])):
+            text = eol.join(lines)
+            doc = eol.join(['-----BEGIN PGP SIGNED MESSAGE-----', 'Hash: SHA256', '', text, '-----BEGIN PGP SIGNATURE-----', 'Version: 1', '',
+                            'iQEzBAEBCAAdFiEE', '=AAAA', '-----END PGP SIGNATURE-----', ''])
+            out.append(('%s, %s' % (what, name), eol, text, doc))
+    return out
+
+
 def final_line_ending(rep, prog, A):
-    """C11.7: the last line of the text must not take the CR of the line ending in front of the signature armor."""
+    """C11.7: the text the reader hands back is the signed text - the line ending in front of the signature armor is not part of it
+    (RFC 4880 7.1), for LF and for CR LF armor.  Which part of the input a group captures depends on greedy / lazy choices, not on the
+    language alone, so this is decided by matching witness documents with the checker's own matcher on the normalised tree."""
     tree, groups = armor_tree(A)
-    hit = regexast.find_group(tree, groups['cleartext']) if 'cleartext' in groups else None
-    if hit is None:
+    if 'cleartext' not in groups:
         raise AnalysisError('armor regex: no cleartext group')
-    seq = regexast.strip_groups(hit[0][2])
-    detail = None
-    ok = False
-    # expected: ... then a "rest of line" repeat followed by a lookahead for (\r?)\n-----
-    if len(seq) >= 2 and seq[-1][0] == 'look' and seq[-1][1] == 1 and not seq[-1][2] and seq[-2][0] == 'rep':
-        last, look = seq[-2], seq[-1][3]
-        anychar = len(last[4]) == 1 and last[4][0][0] == 'set' and 13 in last[4][0][1] and 10 not in last[4][0][1]
-        if anychar and look:
-            first = look[0]
-            optional_cr = first[0] == 'rep' and first[1] == 0 and first[4] == (('set', frozenset([13])),)
-            greedy = bool(last[3])
-            detail = 'final line: %s any-char repeat before lookahead with optional CR=%s' % ('greedy' if greedy else 'lazy', optional_cr)
-            ok = not (greedy and optional_cr)
-    if detail is None:
-        raise AnalysisError('armor regex: cleartext group has an unrecognised shape')
-    rep.check(ok, 'C11.7', 'Armorable.__armor_regex', detail,
-              'the last line of the text is matched greedily in front of a lookahead whose CR is optional: for CRLF input the CR of the final line '
+    bad = []
+    for what, eol, text, doc in cleartext_documents():
+        try:
+            m = regexast.tree_search(tree, doc)
+        except regexast.Unsupported as ex:
+            raise AnalysisError('armor regex: %s' % ex)
+        got = doc[slice(*m[groups['cleartext']])] if m is not None and groups['cleartext'] in m else None
+        if got != text:
+            bad.append('%s: text %r read as %r' % (what, text, got))
+    rep.check(not bad, 'C11.7', 'Armorable.__armor_regex', 'cleartext captured on %d witness documents: %s' % (len(cleartext_documents()), bad[:1] or 'exactly the text'),
+              'the last line of the text must not take (part of) the line ending in front of the signature armor: for CR LF input the CR of the final line '
               'ending becomes part of the text, although the line ending before the signature is not part of the signed text (RFC 4880 7.1)',
-              where=A.where, expected='(.*?(?=\\r?\\n-{5})) (lazy) or a lookahead that requires the CR', found=detail)
+              where=A.where, expected='the text without its final line ending, for LF and CR LF armor', found=bad[:3])
